@@ -25,7 +25,7 @@ inductive Opnd
 
 /-- mnemonics emitted by the helpers (`vex`: the AVX spelling `v...` of an SSE mnemonic) -/
 inductive Mn
-  | mov | movzx | movsx | movsxd | xchg | movd | movq | movss | movsd | movaps | movups | movapd | movdqa | vmovdqa32 | kmovb | kmovw | kmovd | kmovq | movq2dq | movdq2q | cvtss2sd | cvtsd2ss | cvtps2pd | cvtpd2ps | ldr | ldrb | ldrh | ldrsb | ldrsh | ldrsw | str | strb | strh | fmov
+  | mov | movzx | movsx | movsxd | xchg | movd | movq | movss | movsd | movaps | movups | movapd | movdqa | vmovdqa32 | kmovb | kmovw | kmovd | kmovq | movq2dq | movdq2q | cvtss2sd | cvtsd2ss | cvtps2pd | cvtpd2ps | ldr | ldrb | ldrh | ldrsb | ldrsh | ldrsw | str | strb | strh | fmov | sxtb | sxth | sxtw | uxtb | uxth | fcvt
   deriving DecidableEq, Repr
 
 structure Inst where
@@ -69,6 +69,12 @@ def Mn.text : Mn → String
   | .strb => "strb"
   | .strh => "strh"
   | .fmov => "fmov"
+  | .sxtb => "sxtb"
+  | .sxth => "sxth"
+  | .sxtw => "sxtw"
+  | .uxtb => "uxtb"
+  | .uxth => "uxth"
+  | .fcvt => "fcvt"
 
 def Inst.text (i : Inst) : String := (if i.vex then "v" else "") ++ i.name.text
 
@@ -263,33 +269,56 @@ def x86Store (c : Cfg) (base : Nat) (off : Int) (srcRt srcId : Nat) (t : Nat) : 
     else if !c.avx512 then fin (v c .movdqa) msz
     else fin (p .vmovdqa32) msz
 
-/-- a64 `EmitHelper::emit_arg_move` -/
-def a64ArgMove (dstRt dstId dt : Nat) (src : Opnd) (st : Nat) : Option Inst :=
+/-- a64 `EmitHelper::emit_arg_move`, the selection (independent of register ids and of the address; with fix C06-13: integer
+    moves and loads extend as x86 does – sign extension when both types are signed, zero extension otherwise – and scalar
+    float <-> double is `fcvt`); `none` = `kInvalidState` -/
+def a64Sel (dstRt dt : Nat) (src : SrcKind) (st : Nat) : Option MoveSel :=
   let dt := if dt = 0 then typeIdOfReg dstRt else dt
   let dsz := tySize dt
   let ssz := tySize st
-  let intPart : Option (Option Inst) :=
+  let intPart : Option (Option MoveSel) :=
     if isInt dt && isInt st then
       let x := dsz = 8
       let drt := if x then 6 else 5
-      if src.isReg then some (some ⟨.mov, false, [.reg drt dstId, src.withRt drt]⟩)
+      let widen := dsz > ssz
+      let srcSigned := st % 2 = 0
+      let signExt := if widen then (srcSigned && dt % 2 = 0) else srcSigned
+      if src.isReg then
+        if !widen then some (some ⟨.mov, false, drt, some drt, 0⟩)
+        else
+          let name : Option Mn :=
+            if ssz = 1 then some (if signExt then .sxtb else .uxtb) else if ssz = 2 then some (if signExt then .sxth else .uxth)
+            else if ssz = 4 then some (if signExt then .sxtw else .mov) else none
+          some (name.map fun n => ⟨n, false, if signExt then drt else 5, some 5, 0⟩)
       else if src.isMem then
         let name : Option Mn :=
-          if st = 34 then some .ldrsb else if st = 35 then some .ldrb else if st = 36 then some .ldrsh else if st = 37 then some .ldrh
-          else if st = 38 then some (if x then .ldrsw else .ldr) else if st = 39 || st = 40 || st = 41 then some .ldr else none
-        some (name.map fun n => ⟨n, false, [.reg drt dstId, src]⟩)
+          if ssz = 1 then some (if signExt then .ldrsb else .ldrb) else if ssz = 2 then some (if signExt then .ldrsh else .ldrh)
+          else if ssz = 4 then some (if x && signExt then .ldrsw else .ldr) else if ssz = 8 then some .ldr else none
+        let drt' := if ssz < 8 && !(signExt && (x || ssz < 4)) then 5 else drt
+        some (name.map fun n => ⟨n, false, drt', none, 0⟩)
       else none
     else none
   match intPart with
   | some r => r
   | none =>
     if (isFloat dt || isVec dt) && (isFloat st || isVec st) then
+      let dsc := scalarOf dt
+      let ssc := scalarOf st
+      if (dsc = tFloat32 && ssc = tFloat64) || (dsc = tFloat64 && ssc = tFloat32) then
+        let toDouble := dsc = tFloat64
+        if !src.isReg || ssz ≠ (if toDouble then 4 else 8) then none
+        else some ⟨.fcvt, false, if toDouble then 10 else 9, some (if toDouble then 9 else 10), 0⟩
+      else
       let drt := if ssz = 2 then 8 else if ssz = 4 then 9 else if ssz = 8 then 10 else if ssz = 16 then 11 else 0
       if drt = 0 then none
-      else if src.isReg then some ⟨if ssz ≤ 4 then .fmov else .mov, false, [.reg drt dstId, src.withRt drt]⟩
-      else if src.isMem then some ⟨.ldr, false, [.reg drt dstId, src]⟩
+      else if src.isReg then some ⟨if ssz ≤ 4 then .fmov else .mov, false, drt, some drt, 0⟩
+      else if src.isMem then some ⟨.ldr, false, drt, none, 0⟩
       else none
     else none
+
+/-- a64 `EmitHelper::emit_arg_move` (memory operands carry no size on this target) -/
+def a64ArgMove (dstRt dstId dt : Nat) (src : Opnd) (st : Nat) : Option Inst :=
+  (a64Sel dstRt dt src.kind st).map fun m => m.apply dstId src
 
 /-- a64 `EmitHelper::emit_reg_move`, store form (operands: register, memory) -/
 def a64Store (base : Nat) (off : Int) (srcRt srcId : Nat) (t : Nat) : Option Inst :=
@@ -566,6 +595,9 @@ def emitMove (cfg : Cfg) (e : Emit) (varId outId : Nat) : Except (String × Emit
     let var := { var with cur := .reg out.typeId out.regType outId, done := outId = out.regId }
     .ok { e with ctx := (e.ctx.setW g w).setVar varId var }
 
+/-- `needs_extension` of fix C06-12: the destination type is wider than the current type -/
+def needsExt (v : Var) : Bool := v.out.typeId ≠ 0 && v.cur.typeId ≠ 0 && decide (tySize v.out.typeId > tySize v.cur.typeId)
+
 /-- phase 2: one variable of one pass -/
 def shuffleVar (cfg : Cfg) (s : Emit × Flags) (varId : Nat) : Except (String × Emit) (Emit × Flags) :=
   let (e, fl) := s
@@ -584,7 +616,7 @@ def shuffleVar (cfg : Cfg) (s : Emit × Flags) (varId : Nat) : Except (String ×
   else
     let altId := (w.phys.getD out.regId none).getD 255
     let alt := e.ctx.var altId
-    if !alt.outInit || (alt.out.isReg && alt.out.regId = cur.regId) then
+    if !alt.outInit || (alt.out.isReg && groupOf alt.out.regType = cg && alt.out.regId = cur.regId) then   -- fix C06-11: group too
       if hasSwap cfg.arch cg then
         let hi := max cur.regType alt.cur.regType
         let hi := if 2 ≤ hi && hi ≤ 4 then 5 else hi
@@ -593,9 +625,11 @@ def shuffleVar (cfg : Cfg) (s : Emit × Flags) (varId : Nat) : Except (String ×
         | some i =>
           let e := e.push i
           let w := w.swap varId cur.regId altId out.regId
-          let var := { var with cur := { cur with regId := out.regId }, done := true }
-          let alt := { alt with cur := { alt.cur with regId := cur.regId }, done := alt.done || alt.outInit }
-          .ok ({ e with ctx := ((e.ctx.setW og w).setVar varId var).setVar altId alt }, { fl with didSome := true })
+          -- fix C06-12: a swap extends nothing; a variable that still needs extension is not done (extended in place next pass)
+          let var := { var with cur := { cur with regId := out.regId }, done := !needsExt var }
+          let alt := { alt with cur := { alt.cur with regId := cur.regId }, done := alt.done || (alt.outInit && !needsExt alt) }
+          .ok ({ e with ctx := ((e.ctx.setW og w).setVar varId var).setVar altId alt },
+               { fl with didSome := true, pending := fl.pending || needsExt var || (alt.outInit && needsExt alt) })
       else
         match w.lowestAvailable with
         | none => .ok (e, { fl with pending := true })
